@@ -129,6 +129,11 @@ structure Cfg where
       application has closed that sits in `FIN_WAIT2` (our FIN acknowledged, nothing owed, waiting only for
       the peer's FIN); after `retx_threshold · (retx_max + 1)` passes it is aborted and reaped. -/
   fixFinWait2Timeout : Bool := false
+  /-- F-C06-4 repair: zero-window persist probe. A sender with unsent data (or an unsent FIN), nothing in
+      flight and a zero peer window sends, every `retx_threshold` egress passes, its first unsent byte (or
+      the FIN) at `snd_nxt` without advancing `snd_nxt` (so the probe never counts toward `retx_max`);
+      `snd_max` covers the probe, so the peer's ACK is accepted if it had room after all. -/
+  fixPersistProbe : Bool := false
   deriving DecidableEq, Repr, Inhabited
 
 /-- The tree before the SND.MAX repair of F-C06-8 (seven repairs: 080947f, 018714e, 2fda244, d10c607,
@@ -140,9 +145,12 @@ def Cfg.committed7 : Cfg :=
 /-- The tree with the SND.MAX repair (7797aa0), before the FIN_WAIT2 timeout of F-C13-2. -/
 def Cfg.committed8 : Cfg := { Cfg.committed7 with fixSndMax := true }
 
-/-- The code as committed in /repo after all repairs of this area (nine flags; the general
+/-- The tree with the FIN_WAIT2 timeout of F-C13-2, before the persist probe of F-C06-4. -/
+def Cfg.committed9 : Cfg := { Cfg.committed8 with fixFinWait2Timeout := true }
+
+/-- The code as committed in /repo after all repairs of this area (ten flags; the general
     `fixOrphanTimeout` was not adopted and stays off). -/
-def Cfg.committed : Cfg := { Cfg.committed8 with fixFinWait2Timeout := true }
+def Cfg.committed : Cfg := { Cfg.committed9 with fixPersistProbe := true }
 
 /-- `advertised_window` (tcp.rs:1335). -/
 def advWindow (recvCap len : Nat) : Nat := min (recvCap - len) 65535
